@@ -114,7 +114,11 @@ class Engine:
             return v
         out = tuple(self.reduce(x, d) if isinstance(x, tuple) else x for x in v)
         if out[0] == 'call' and out[1] in FN_CALLS and len(out[2]) == 2 and out[2][0][0] in ('closure', 'fnitem') and out[2][1][0] == 'tuple':
-            r = self.sl.apply_closure(out[2][0], out[2][1][1])
+            # a boolean closure that branches (`matches!(..)`, `if .. { true } else { false }`) has no closed-form
+            # value (a phi of literals): it is kept as a call and expanded into its decision paths by expand_atom
+            g = self.prog.fns.get(out[2][0][1])
+            branching = g is not None and g.ret == 'bool' and any(b['t']['t'] == 'switch' for b in g.blocks)
+            r = None if branching else self.sl.apply_closure(out[2][0], out[2][1][1])
             if r is not None:
                 return self.reduce(r, d + 1)
         if out != v and out[0] == 'field':
@@ -245,6 +249,16 @@ class Engine:
             if pl and len(pl) == 1 and not (1 <= pl[0] <= fn.argc) and len(fn.whole_defs(pl[0])) > 1 \
                     and (fn.path, pl[0]) not in getattr(S, 'opaque', {}):
                 return self.value_at(fn, S, blocks, pl[0], p, depth + 1)
+        if rv['r'] == 'un' and rv.get('op') == 'Not' and depth < 8:
+            # `!matches!(..)` / `!(flag)`: the negated temporary is assigned a literal per branch; on *this* path it
+            # has the value of the branch taken
+            pl = op_place(rv['o'])
+            if pl and len(pl) == 1 and not (1 <= pl[0] <= fn.argc) and len(fn.whole_defs(pl[0])) > 1 \
+                    and (fn.path, pl[0]) not in getattr(S, 'opaque', {}):
+                inner = self.value_at(fn, S, blocks, pl[0], p, depth + 1)
+                if inner[0] == 'const' and isinstance(inner[1], bool):
+                    return ('const', not inner[1])
+                return ('un', 'Not', inner)
         return S._rvalue(fn, rv, set(), 0, None)
 
     # ---- decisions ------------------------------------------------------------------------------------------
@@ -315,6 +329,9 @@ class Engine:
         if v[0] != 'call':
             return [[a]]
         name, args = v[1], v[2]
+        if name in FN_CALLS and len(args) == 2 and args[0][0] in ('closure', 'fnitem') and args[1][0] == 'tuple':
+            # a predicate handed in as a closure / function item (`supersedes(&best.version, &candidate.version)`)
+            return self.callee_cases(args[0], tuple(args[1][1]), oc, depth)
         g = self.prog.fns.get(name)
         if g is not None and g.kind != 'Closure' and not g.impl_trait and g.blocks and g.ret == 'bool':
             return self.bool_cases(g, {(g.path, i): x for i, x in enumerate(args) if i < g.argc}, oc, depth + 1)
@@ -944,6 +961,99 @@ def is_param(v, fn, i):
     return v[0] == 'param' and v[1] == fn.path and v[2] == i
 
 
+# "the text before / after the first occurrence of a pattern" has one normal form, the parts of `s.split_once(P)`.
+# std defines split_once(P) as: find the first match of P at [i, j) and return (&s[..i], &s[j..]); for a literal
+# pattern j = i + len_utf8(P).  So, given that s.find(P) found something,
+#     s[..s.find(P)?]  (also s[0..i])                     ==  s.split_once(P)?.0
+#     s[s.find(P)? + len(P)..]  (also s[i + len(P)..s.len()])  ==  s.split_once(P)?.1
+#     s.find(P) is Some / None                            <=>  s.split_once(P) is Some / None
+# norm_split rewrites the left-hand spellings into the right-hand one (anything else done with the index - another
+# offset, rfind, a different string sliced than searched - is left as it is and fails the obligations as before).
+FIND = 'core::str::<impl str>::find'
+SPLIT_AT = 'core::str::<impl str>::split_at'
+STR_GET = 'core::str::<impl str>::get'
+
+
+def _str_index(v):
+    return v[0] == 'call' and len(v[2]) == 2 and v[1].endswith('::index') and 'ops::Index<' in v[1] and v[1].endswith((' for str>::index', ' for std::string::String>::index'))
+
+
+def _found(v):
+    """(string, pattern, site) when v is the payload of `string.find(<literal pattern>)`"""
+    if v[0] == 'unwrap' and is_call(v[1], FIND) and len(v[1][2]) == 2 and v[1][2][1][0] == 'const' and isinstance(v[1][2][1][1], str) and v[1][2][1][1]:
+        return v[1][2][0], v[1][2][1], (v[1][3] if len(v[1]) > 3 else None)
+    return None
+
+
+def _found_plus(v):
+    """(string, pattern, site) when v is `string.find(P)? + len_utf8(P)`"""
+    if v[0] == 'field' and str(v[2]) == '0' and v[1][0] == 'bin' and v[1][1] == 'AddWithOverflow':
+        v = ('bin', 'Add', v[1][2], v[1][3])
+    if v[0] == 'bin' and v[1] in ('Add', 'AddUnchecked') and len(v) == 4:
+        for x, n in ((v[2], v[3]), (v[3], v[2])):
+            f = _found(x)
+            if f is not None and n[0] == 'const' and not isinstance(n[1], bool) and n[1] == len(f[1][1].encode('utf-8')):
+                return f
+    return None
+
+
+def norm_split(v):
+    if not isinstance(v, tuple) or not v or (isinstance(v[0], str) and v[0] in LEAF):
+        return v
+    out = tuple(norm_split(x) if isinstance(x, tuple) else x for x in v)
+    # s.split_at(s.find(P)?) = (text before the match, the match and what follows it)
+    if out[0] == 'field' and str(out[2]) == '0' and is_call(out[1], SPLIT_AT) and len(out[1][2]) == 2:
+        f = _found(out[1][2][1])
+        if f is not None and canon(strip(f[0])) == canon(strip(out[1][2][0])):
+            return ('field', ('unwrap', ('call', SPLIT, (out[1][2][0], f[1]), f[2])), '0')
+    sliced = out[2] if _str_index(out) else (out[1][2] if out[0] == 'unwrap' and is_call(out[1], STR_GET) and len(out[1][2]) == 2 else None)
+    if sliced is not None:
+        s, r = sliced
+        if r[0] == 'agg' and r[2] == 'RangeFrom' and s[0] == 'field' and str(s[2]) == '1' and is_call(s[1], SPLIT_AT) and len(s[1][2]) == 2:
+            f = _found(s[1][2][1])
+            st = dict(r[3]).get('start', ('unknown',))
+            if f is not None and canon(strip(f[0])) == canon(strip(s[1][2][0])) and st[0] == 'const' and not isinstance(st[1], bool) and st[1] == len(f[1][1].encode('utf-8')):
+                return ('field', ('unwrap', ('call', SPLIT, (s[1][2][0], f[1]), f[2])), '1')
+        rng = dict(r[3]) if r[0] == 'agg' and (r[1] or '').startswith('std::ops::Range') else None
+        part = None
+        if rng is not None and r[2] == 'RangeTo' and set(rng) == {'end'}:
+            part = (_found(rng['end']), '0')
+        elif rng is not None and r[2] == 'Range' and set(rng) == {'start', 'end'} and rng['start'] == ('const', 0):
+            part = (_found(rng['end']), '0')
+        elif rng is not None and r[2] == 'RangeFrom' and set(rng) == {'start'}:
+            part = (_found_plus(rng['start']), '1')
+        elif rng is not None and r[2] == 'Range' and set(rng) == {'start', 'end'} and rng['end'][0] == 'call' and rng['end'][1].endswith(('str>::len', 'String::len')) \
+                and len(rng['end'][2]) == 1 and canon(strip(rng['end'][2][0])) == canon(strip(s)):
+            part = (_found_plus(rng['start']), '1')
+        if part is not None and part[0] is not None and canon(strip(part[0][0])) == canon(strip(s)):
+            return ('field', ('unwrap', ('call', SPLIT, (s, part[0][1]), part[0][2])), part[1])
+    return out
+
+
+def norm_split_paths(rp):
+    """result paths with the text-splitting normal form applied to decisions and payloads"""
+    out = []
+    for atoms, k, p in rp:
+        na = []
+        for a in atoms:
+            if a[0] == 'res':
+                v = norm_split(a[3])
+                if is_call(v, FIND) and len(v[2]) == 2 and v[2][1][0] == 'const' and isinstance(v[2][1][1], str) and v[2][1][1]:
+                    v = ('call', SPLIT, v[2], v[3] if len(v) > 3 else None)
+                na.append(('res', canon(v), a[2], v))
+            elif a[0] == 'variant':
+                v = norm_split(a[1])
+                if is_call(v, FIND) and a[2] == OPT and len(v[2]) == 2 and v[2][1][0] == 'const' and isinstance(v[2][1][1], str) and v[2][1][1]:
+                    v = ('call', SPLIT, v[2], v[3] if len(v) > 3 else None)
+                na.append(('variant', v, a[2], a[3]))
+            elif a[0] == 'bool':
+                na.append(('bool', norm_split(a[1]), a[2]))
+            else:
+                na.append(a)
+        out.append((na, k, norm_split(p) if p is not None else None))
+    return out
+
+
 def split_part(v, fn, i):
     """v is exactly the i-th component of `<param 0 of fn>.split_once(':')` (identity conversions such as
     String::from / to_owned / to_string / clone are transparent in the value normal form; trim, case folding,
@@ -961,7 +1071,7 @@ def acceptor_parts(sl, fs, oks):
     that name and at the length of that value"""
     probs = []
     for atoms, p in oks:
-        ck = strip(sl.inline_deep(p))
+        ck = norm_split(strip(sl.inline_deep(p)))
         fl = dict(ck[3]) if ck[0] == 'agg' else {}
         name_v, val_v = fl.get('name', ('unknown',)), strip(fl.get('value', ('unknown',)))
         if not split_part(name_v, fs, 0):
@@ -981,16 +1091,21 @@ def acceptor_parts(sl, fs, oks):
     return probs
 
 
-def acceptor_extra_conditions(fs, oks):
+def acceptor_extra_conditions(fs, oks, sl=None):
     """decisions on the way to an Ok outcome other than: split_once(':') found a colon, hex::decode succeeded,
     name_compatible, length_compatible.  from_str is deterministic, so when the accepting paths depend on these four
     only, every rejecting path differs from an accepting one in one of them: accepted <=> all four hold"""
     extra = []
     for atoms, p in oks:
+        # the split / decode that is tested is the one whose results the accepted checksum is made of
+        used = set()
+        if sl is not None and p is not None:
+            used = {x for q in (p, norm_split(sl.inline_deep(p))) for x in walk(canon(q)) if isinstance(x, tuple) and x and x[0] == 'call'}
+        mine = lambda c: sl is None or canon(c) in used
         for a in atoms:
-            if a[0] == 'res' and a[2] == 'ok' and a[1][0] == 'call' and a[1][1] in (SPLIT, HEXDEC):
+            if a[0] == 'res' and a[2] == 'ok' and a[1][0] == 'call' and a[1][1] in (SPLIT, HEXDEC) and mine(a[1]):
                 continue
-            if a[0] == 'variant' and a[1][0] == 'call' and a[1][1] in (SPLIT, HEXDEC) and frozenset(a[3]) <= {'Some', 'Ok'}:
+            if a[0] == 'variant' and a[1][0] == 'call' and a[1][1] in (SPLIT, HEXDEC) and frozenset(a[3]) <= {'Some', 'Ok'} and mine(a[1]):
                 continue
             if a[0] == 'bool' and a[2] is True and a[1][0] == 'call' and a[1][1].endswith(('Digest::name_compatible', 'Digest::length_compatible')):
                 continue
